@@ -1,0 +1,213 @@
+//go:build verif
+
+package pilosa
+
+// Exported access to the coordinator side of the cluster-resize protocol for
+// the /verif harness (property C22). No behaviour, only access: every method
+// forwards to the cluster / API / Server method named in its comment. What is
+// assembled here is what pilosa itself assembles around a coordinator's
+// cluster object (compare Server.Open and the ClusterCluster test helper):
+// a cluster with a holder, a topology, a node list and a broadcaster.
+
+import (
+	"sort"
+)
+
+// VerifResizeBroadcaster is the (unexported) broadcaster interface.
+type VerifResizeBroadcaster interface {
+	SendSync(Message) error
+	SendAsync(Message) error
+	SendTo(*Node, Message) error
+}
+
+// VerifResizeOptions configures a coordinator cluster.
+type VerifResizeOptions struct {
+	Path        string   // data directory (holder and .topology)
+	Self        string   // this node's id; it is the coordinator
+	Members     []string // ids of all initial members (including Self)
+	ReplicaN    int
+	PartitionN  int    // 0 = default
+	Hasher      Hasher // nil = default (jump hash)
+	Broadcaster VerifResizeBroadcaster
+}
+
+// VerifResizeCluster wraps a coordinator's cluster.
+type VerifResizeCluster struct {
+	c   *cluster
+	h   *Holder
+	api *API
+	srv *Server
+}
+
+// VerifResizeNode returns the Node value used for a node id.
+func VerifResizeNode(id string) *Node {
+	uri := defaultURI()
+	_ = uri.setScheme("http")
+	_ = uri.setHost("host-" + id)
+	uri.SetPort(0)
+	return &Node{ID: id, URI: *uri}
+}
+
+// VerifResizeNew builds the cluster object of a coordinator with the given
+// members, opens it (cluster.open, Holder.Open) and marks every member READY
+// (cluster.receiveNodeState), which brings the cluster to NORMAL.
+func VerifResizeNew(o VerifResizeOptions) (*VerifResizeCluster, error) {
+	h := NewHolder()
+	h.Path = o.Path
+
+	c := newCluster()
+	c.ReplicaN = o.ReplicaN
+	if o.Hasher != nil {
+		c.Hasher = o.Hasher
+	}
+	if o.PartitionN > 0 {
+		c.partitionN = o.PartitionN
+	}
+	c.Path = o.Path
+	c.Topology = newTopology()
+	c.holder = h
+	c.Node = VerifResizeNode(o.Self)
+	c.Node.IsCoordinator = true
+	c.Coordinator = o.Self
+	c.broadcaster = o.Broadcaster
+
+	for _, id := range o.Members {
+		n := c.Node
+		if id != o.Self {
+			n = VerifResizeNode(id)
+		}
+		if err := c.addNode(n); err != nil {
+			return nil, err
+		}
+	}
+	if err := c.open(); err != nil {
+		return nil, err
+	}
+	if err := h.Open(); err != nil {
+		return nil, err
+	}
+	if err := c.setNodeState(nodeStateReady); err != nil {
+		return nil, err
+	}
+	for _, id := range o.Members {
+		if id == o.Self {
+			continue
+		}
+		if err := c.receiveNodeState(id, nodeStateReady); err != nil {
+			return nil, err
+		}
+	}
+	v := &VerifResizeCluster{c: c, h: h}
+	v.api = &API{cluster: c, holder: h}
+	v.srv = &Server{cluster: c, holder: h}
+	return v, nil
+}
+
+// Holder returns the coordinator's holder (to create an index/field and data).
+func (v *VerifResizeCluster) Holder() *Holder { return v.h }
+
+// ListenForJoins is cluster.listenForJoins.
+func (v *VerifResizeCluster) ListenForJoins() { v.c.listenForJoins() }
+
+// Close is cluster.close followed by Holder.Close.
+func (v *VerifResizeCluster) Close() error {
+	if err := v.c.close(); err != nil {
+		return err
+	}
+	return v.h.Close()
+}
+
+// CloseNoWait closes the closing channel without waiting for the listener
+// (for a cluster whose listener is known to be stuck) and closes the holder.
+func (v *VerifResizeCluster) CloseNoWait() {
+	close(v.c.closing)
+	_ = v.h.Close()
+}
+
+// ReceiveMessage is Server.receiveMessage (the dispatch of internal messages)
+// on a Server that has only this cluster and holder.
+func (v *VerifResizeCluster) ReceiveMessage(m Message) error { return v.srv.receiveMessage(m) }
+
+// NodeJoin is cluster.nodeJoin.
+func (v *VerifResizeCluster) NodeJoin(n *Node) error { return v.c.nodeJoin(n) }
+
+// NodeLeave is cluster.nodeLeave.
+func (v *VerifResizeCluster) NodeLeave(id string) error { return v.c.nodeLeave(id) }
+
+// RemoveNode is API.RemoveNode.
+func (v *VerifResizeCluster) RemoveNode(id string) error {
+	_, err := v.api.RemoveNode(id)
+	return err
+}
+
+// MarkResizeInstructionComplete is cluster.markResizeInstructionComplete.
+func (v *VerifResizeCluster) MarkResizeInstructionComplete(m *ResizeInstructionComplete) error {
+	return v.c.markResizeInstructionComplete(m)
+}
+
+// ResizeAbort is API.ResizeAbort.
+func (v *VerifResizeCluster) ResizeAbort() error { return v.api.ResizeAbort() }
+
+// State is cluster.State.
+func (v *VerifResizeCluster) State() string { return v.c.State() }
+
+// NodeIDs returns the ids of cluster.Nodes(), sorted.
+func (v *VerifResizeCluster) NodeIDs() []string {
+	var ids []string
+	for _, n := range v.c.Nodes() {
+		ids = append(ids, n.ID)
+	}
+	sort.Strings(ids)
+	return ids
+}
+
+// TopologyIDs returns a copy of Topology.nodeIDs.
+func (v *VerifResizeCluster) TopologyIDs() []string {
+	v.c.Topology.mu.RLock()
+	defer v.c.Topology.mu.RUnlock()
+	return append([]string(nil), v.c.Topology.nodeIDs...)
+}
+
+// VerifResizeJobInfo is a snapshot of a resizeJob.
+type VerifResizeJobInfo struct {
+	ID      int64
+	Action  string
+	State   string
+	IDs     map[string]bool // node id -> reported complete
+	Instr   []string        // node ids that have an instruction
+	Current bool
+}
+
+// CurrentJobID returns cluster.currentJob's id (0, false when nil), read under c.mu.
+func (v *VerifResizeCluster) CurrentJobID() (int64, bool) {
+	v.c.mu.RLock()
+	defer v.c.mu.RUnlock()
+	if v.c.currentJob == nil {
+		return 0, false
+	}
+	return v.c.currentJob.ID, true
+}
+
+// Jobs returns a snapshot of cluster.jobs, each read under c.mu and j.mu.
+func (v *VerifResizeCluster) Jobs() []VerifResizeJobInfo {
+	v.c.mu.RLock()
+	defer v.c.mu.RUnlock()
+	var out []VerifResizeJobInfo
+	for _, j := range v.c.jobs {
+		j.mu.RLock()
+		info := VerifResizeJobInfo{ID: j.ID, Action: j.action, State: j.state, IDs: map[string]bool{}, Current: v.c.currentJob == j}
+		for k, b := range j.IDs {
+			info.IDs[k] = b
+		}
+		for _, in := range j.Instructions {
+			info.Instr = append(info.Instr, in.Node.ID)
+		}
+		j.mu.RUnlock()
+		sort.Strings(info.Instr)
+		out = append(out, info)
+	}
+	return out
+}
+
+// QueueLen is len(cluster.joiningLeavingNodes).
+func (v *VerifResizeCluster) QueueLen() int { return len(v.c.joiningLeavingNodes) }
